@@ -51,13 +51,15 @@ func (tmgc *TCPMuxGroupCtl) Listen(
 	multiplexer, group, groupKey string,
 	routeConfig vhost.RouteConfig,
 ) (l net.Listener, err error) {
+	// Hold the controller lock until the listener has joined the group, so that the group
+	// can't be emptied, closed and removed by a concurrent CloseListener in between.
 	tmgc.mu.Lock()
+	defer tmgc.mu.Unlock()
 	tcpMuxGroup, ok := tmgc.groups[group]
 	if !ok {
 		tcpMuxGroup = NewTCPMuxGroup(tmgc)
 		tmgc.groups[group] = tcpMuxGroup
 	}
-	tmgc.mu.Unlock()
 
 	switch v1.TCPMultiplexerType(multiplexer) {
 	case v1.TCPMultiplexerHTTPConnect:
@@ -169,6 +171,9 @@ func (tmg *TCPMuxGroup) Accept() <-chan net.Conn {
 
 // CloseListener remove the TCPMuxGroupListener from the TCPMuxGroup
 func (tmg *TCPMuxGroup) CloseListener(ln *TCPMuxGroupListener) {
+	// lock order: controller first, then group (same as TCPMuxGroupCtl.Listen)
+	tmg.ctl.mu.Lock()
+	defer tmg.ctl.mu.Unlock()
 	tmg.mu.Lock()
 	defer tmg.mu.Unlock()
 	for i, tmpLn := range tmg.lns {
@@ -180,7 +185,7 @@ func (tmg *TCPMuxGroup) CloseListener(ln *TCPMuxGroupListener) {
 	if len(tmg.lns) == 0 {
 		close(tmg.acceptCh)
 		tmg.tcpMuxLn.Close()
-		tmg.ctl.RemoveGroup(tmg.group)
+		delete(tmg.ctl.groups, tmg.group)
 	}
 }
 
